@@ -88,8 +88,23 @@ def registry_private(prog):
                     if isinstance(s, ast.Assign) and isinstance(s.targets[0], ast.Attribute) \
                             and s.targets[0].attr == '_handlers' and isinstance(s.value, ast.Dict) and not s.value.keys:
                         ok = True
-    out.append(ob('registry#reset_shadows', 'reset=True gives the instance its own empty _handlers dict',
-                  'proved' if ok else 'refuted', 'Validation.__init__: if reset: self._handlers = {}'))
+    # ... and nothing can run or leave the constructor before that: no return / call of run_validation /
+    # handler lookup precedes the `if reset:` statement in the constructor body
+    early = None
+    if init is not None and ok:
+        for stmt in init.node.body:
+            if isinstance(stmt, ast.If) and isinstance(stmt.test, ast.Name) and stmt.test.id == 'reset':
+                break
+            for node in ast.walk(stmt):
+                if isinstance(node, ast.Return):
+                    early = 'return at line %d precedes the reset branch' % node.lineno
+                if isinstance(node, ast.Call) and isinstance(node.func, ast.Attribute) and \
+                        node.func.attr in ('run_validation', 'validate', 'register_custom_handler', 'register_handler'):
+                    early = '%s() at line %d precedes the reset branch' % (node.func.attr, node.lineno)
+    out.append(ob('registry#reset_shadows', 'reset=True gives the instance its own empty _handlers dict before anything '
+                  'else happens in the constructor',
+                  'proved' if ok and not early else 'refuted',
+                  early or 'Validation.__init__: if reset: self._handlers = {}'))
     # (3) register_handler only at module top level; register_custom_handler only on reset=True instances
     bad_calls = []
     for fid, fi in prog.funcs.items():
